@@ -15,7 +15,7 @@ ALPHA = ["a", "b", " ", "世", "é", "\t", "x", "ü", "界", "é"]
 
 
 def gen_text(r2, maxlen, alpha=None):
-    n = r2.choice([0, 1, 2, 3, 5, 8, 13, 21, 34, 55, maxlen])
+    n = r2.choice([0, 1, 2, 3, 5, 8, 13, 21, 34, 55, maxlen]) if maxlen < 3000 else r2.choice([maxlen, maxlen - 7, 13])
     s = "".join(r2.choice(alpha or ALPHA) for _ in range(min(n, maxlen)))
     return s
 
